@@ -180,12 +180,150 @@ def classify_effects(p):
         elif is_compiler_fence(name):
             evs.append(Ev(n, 'cfence', ef, order=ordering_of(ef['args'][0])))
         elif name in DATA_WRITES:
-            evs.append(Ev(n, 'dwrite', ef, field=target_field(ef['args'][0], p.effects)))
+            # (src, dst, count) for the free copy functions and `src.copy_to(dst, count)`; the destination comes first otherwise
+            di = 1 if name.endswith(('::copy_nonoverlapping', '::copy', '::copy_to', '::copy_to_nonoverlapping')) and \
+                not name.endswith(('::copy_from', '::copy_from_nonoverlapping')) and len(ef['args']) > 1 else 0
+            evs.append(Ev(n, 'dwrite', ef, field=target_field(ef['args'][di], p.effects), dest=ef['args'][di]))
         elif name in DATA_READS:
             evs.append(Ev(n, 'dread', ef, field=target_field(ef['args'][0], p.effects), term=T('call', name, n, *ef['args'])))
         else:
             evs.append(Ev(n, 'other', ef, name=name))
     return evs
+
+
+def record_layout(fb):
+    """(size, [(offset, size, name)]) of the published record as rustc laid it out"""
+    from .open_model import layout_in
+    a, c = layout_in(fb, common.SHM, '::ClockErrorBound')
+    if a is None:
+        return None
+    return int(a['size']), [(int(f['offset']), int(f['size']), f['name']) for f in a['variants'][0]['fields']], a, c
+
+
+def _proj_offset(fb, crate, adt, projs):
+    """byte offset of a field path inside a struct, following nested structs"""
+    off = 0
+    cur = adt
+    for e in projs:
+        if e[0] != 'f' or cur is None or cur.get('kind') != 'struct':
+            return None
+        fs = cur['variants'][0]['fields']
+        if e[1] >= len(fs) or 'offset' not in fs[e[1]]:
+            return None
+        off += int(fs[e[1]]['offset'])
+        cur = crate.adts.get(crate.types[fs[e[1]]['ty']]['s'])
+    return off
+
+
+def record_extent(fb, p, ev):
+    """(lo, hi) in bytes, relative to the start of the record, of a data access classified as touching the record; None
+    when the extent cannot be established"""
+    lay = record_layout(fb)
+    if lay is None:
+        return None
+    rsize, fields, adt, crate = lay
+    ef = ev.ef
+    ptr = getattr(ev, 'dest', None) or ef['args'][0]
+    name = ef['callee']
+    body = fb.body(ef['site'][0])
+    targs = (ef.get('fn') or {}).get('targs') or []
+    if body is None or not targs:
+        return None
+    tt = body.crate.types[targs[0]]
+    if tt.get('k') == 'param':
+        cands = common.concrete_type_args(fb, body, tt['s'])
+        sizes = set()
+        for cs in cands:
+            for c in fb.crates:
+                a = c.adts.get(cs)
+                if a and 'size' in a:
+                    sizes.add(int(a['size']))
+        esize = sizes.pop() if len(sizes) == 1 else None
+    else:
+        esize = common.type_size(body.crate, targs[0])
+    if esize is None:
+        return None
+    count = 1
+    last = name.split('::')[-1]
+    if last in ('copy_nonoverlapping', 'copy', 'copy_to', 'copy_to_nonoverlapping', 'copy_from', 'copy_from_nonoverlapping', 'write_bytes'):
+        cv = ef['args'][2] if len(ef['args']) > 2 else None
+        if cv is None or not psi.is_int_const(cv):
+            return None
+        count = cv[1]
+    # offset of the pointer from the record's base
+    off = 0
+    v = ptr
+    for _ in range(8):
+        if v[0] == 'ref' and v[1][0][0] == 'S' and v[1][1]:
+            d = _proj_offset(fb, crate, adt, v[1][1])
+            if d is None:
+                return None
+            off += d
+            v = v[1][0][1]
+            continue
+        if v[0] == 't' and v[1] == 'call' and v[2][0].startswith('std::ptr::') and v[2][0].endswith(common.PTR_ADVANCE) and \
+                isinstance(v[2][1], int) and v[2][1] < len(p.effects):
+            d = common.ptr_advance_bytes(fb, p.effects[v[2][1]])
+            if d is None:
+                return None
+            off += d
+            v = v[2][2]
+            continue
+        if v[0] == 't' and v[1] in ('cast',):
+            v = v[2][0]
+            continue
+        if v[0] == 't' and v[1] == 'call' and v[2][0].startswith('std::ptr::') and v[2][0].split('::')[-1] in ('cast', 'cast_mut', 'cast_const', 'as_ptr', 'as_mut_ptr'):
+            v = v[2][2]
+            continue
+        break
+    if target_field(v, p.effects) != 'ceb':
+        return None
+    return off, off + esize * count
+
+
+def record_coverage(fb, p, evs, kind):
+    """which bytes of the record the accesses of `kind` ('dwrite' / 'dread') on this path touch:
+    (covered field names, uncovered field names, misaligned accesses, unknown accesses)"""
+    lay = record_layout(fb)
+    rsize, fields, adt, crate = lay
+    covered = [False] * rsize
+    misaligned, unknown = [], []
+    bounds = {0, rsize} | {o for o, s_, n in fields} | {o + s_ for o, s_, n in fields}
+    for e in evs:
+        if e.kind != kind or e.field != 'ceb':
+            continue
+        ext = record_extent(fb, p, e)
+        if ext is None:
+            unknown.append(e)
+            continue
+        lo, hi = ext
+        if lo < 0 or hi > rsize or lo not in bounds or hi not in bounds:
+            misaligned.append((e, lo, hi))
+        for i in range(max(lo, 0), min(hi, rsize)):
+            covered[i] = True
+    cov = [n for o, s_, n in fields if all(covered[o:o + s_])]
+    unc = [n for o, s_, n in fields if not all(covered[o:o + s_])]
+    return cov, unc, misaligned, unknown
+
+
+def read_terms(v, out=None):
+    """the data-read call terms a value is assembled from (a whole-record read, or a record literal whose fields were read
+    one by one); None when some part of the value is not a data read"""
+    out = [] if out is None else out
+    if v[0] == 't' and v[1] == 'call' and v[2][0] in DATA_READS:
+        out.append(v)
+        return out
+    if v[0] == 'agg' and v[2] is not None and v[3] and (v[1].startswith((common.SHM, 'libc::')) or v[1] == 'tuple'):
+        for fv in v[3]:
+            if read_terms(fv, out) is None:
+                return None
+        return out
+    return None
+
+
+def is_record_read(v):
+    r = read_terms(v)
+    return bool(r)
 
 
 def _param_rooted(body, ptr):
@@ -322,6 +460,32 @@ class ReaderModel:
             if k[0][0] == 'S' and k[0][1][0] == 'sym' and k[1] and all(e[0] == 'f' for e in k[1]):
                 put('.'.join(str(e[2] if e[2] is not None else e[1]) for e in k[1]), v)
         return out
+
+    # ---- what the reader's cache is, read off the code: the record field is what an `Ok(&self.X)` exit hands out; a
+    # cached-generation field is a field the acceptance path assigns a loaded generation to. Other fields of the reader
+    # (statistics, counters) are not cache state.
+    def cache_fields(self):
+        if getattr(self, '_cache', None) is not None:
+            return self._cache
+        rec = set()
+        for p in self.paths:
+            c = self.returns_cache(p)
+            if c is not None and not c.startswith('<'):
+                rec.add(c)
+        gen = set()
+        for p, evs in zip(self.paths, self.evs):
+            stores = self.self_stores(p)
+            gl = {e.term for e in evs if e.kind == 'gload'}
+            if any(k in rec and is_record_read(v) for k, v in stores.items()):
+                for k, v in stores.items():
+                    if k not in rec and v in gl:
+                        gen.add(k)
+        self._cache = (rec, gen)
+        return self._cache
+
+    def is_cache_field(self, k):
+        rec, gen = self.cache_fields()
+        return k in gen or any(k == r or k.startswith(r + '.') for r in rec)
 
     @staticmethod
     def returns_cache(p):
